@@ -859,6 +859,8 @@ func (rule *RuleExpression) checkMatrixExpression(expr *String) *ObjectType {
 	if !ok {
 		return NewEmptyObjectType()
 	}
+	// "include" and "exclude" are removed below. Do not modify the type of the expression itself
+	matTy = matTy.DeepCopy().(*ObjectType)
 
 	// Consider properties in include section elements since 'include' section adds matrix values
 	incTy, ok := matTy.Props["include"]
@@ -933,6 +935,11 @@ func (rule *RuleExpression) checkMatrix(m *Matrix) *ObjectType {
 				continue
 			}
 			if merged, ok := o.Merge(ty).(*ObjectType); ok {
+				if merged == ty {
+					// Merge may return its argument as it is. The object is modified by the following
+					// elements, so it must not be shared with the type of the expression
+					merged = merged.DeepCopy().(*ObjectType)
+				}
 				o = merged
 			} else {
 				o.Loose()
